@@ -285,6 +285,25 @@ def t1(rep, F):
                             "50-99 -> 19yy" % pivots, home["file"], home["line"]))
     if n_sites < 3:
         rep.fail_closed("T1: only %d date construction sites found" % n_sites)
+    # times: a clock time is built from separately range-checked hours and minutes (from_hms_opt); constructors
+    # that take one combined quantity accept component overflow (minutes 60..99 roll over into the hour)
+    for b in F.bodies:
+        if "body" not in b or b.get("exp") or "/tests" in (b.get("file") or ""):
+            continue
+        if b["path"].startswith(("sample::", "scenario_config::", "plugin::generate")):
+            continue
+        for n in walk(b["body"]):
+            if n.get("k") in ("call", "mcall"):
+                f = n.get("inst") or n.get("f") or ""
+                if "NaiveTime" in f and f.rsplit("::", 1)[-1] in ("from_num_seconds_from_midnight_opt",
+                                                                 "from_num_seconds_from_midnight",
+                                                                 "from_hms_milli_opt", "from_hms_micro_opt",
+                                                                 "from_hms_nano_opt"):
+                    r["instances"] += 1
+                    rep.add(Finding("T1", b["path"], "time-ctor:%s" % f.rsplit("::", 1)[-1],
+                                    "%s builds a clock time with %s: hours and minutes are not checked separately, "
+                                    "digits such as 1275 are accepted here and rejected by parse_time_hhmm"
+                                    % (b["path"], f.rsplit("::", 1)[-1]), b["file"], n.get("ln")))
     return r
 
 
